@@ -1151,6 +1151,7 @@ MYTH_CTX_CALLBACK void myth_entry_point_1(void *arg1,void *arg2,void *arg3)
 #endif
   }
   env->this_thread = next_thread;
+  next_thread->env = env;
 #if MYTH_EP_PROF_DETAIL
   t1=myth_get_rdtsc();
   env->prof_data.ep_join+=t1-t0;
